@@ -1,3 +1,317 @@
-(* More characterising lemmas for Lib/PyStr.v (written for C15; generally useful). *)
+(* More characterising lemmas for Lib/PyStr.v (written for C15; generally useful):
+   strip on already-stripped strings, lines without LF and split(CRLF, 1), split(b' ', 2) on a
+   rendered start line, '{:x}'.format / str(int) (to_base) produce the digits of the number,
+   insertion-ordered dict facts. *)
 From PM Require Import Lib.Bytes Lib.BytesFacts Lib.PyStr Lib.PyStrFacts.
 From Coq Require Import ZArith.
+
+(* ------------------------------------------------------------------ strip *)
+Lemma lstrip_app_ws ws l : forallb is_ws ws = true -> lstrip (ws ++ l) = lstrip l.
+Proof.
+  induction ws as [|x t IH]; intros H; [reflexivity|].
+  cbn [forallb] in H. apply andb_true_iff in H as [Hx Ht]. cbn [app lstrip]. rewrite Hx. now apply IH.
+Qed.
+
+Lemma lstrip_cons_nws x t : is_ws x = false -> lstrip (x :: t) = x :: t.
+Proof. intros H. cbn [lstrip]. now rewrite H. Qed.
+
+Lemma rstrip_nws l : l <> [] -> is_ws (last l 0) = false -> rstrip l = l.
+Proof.
+  intros Hne Hl. unfold rstrip.
+  destruct (exists_last Hne) as (l' & y & ->). rewrite last_last in Hl.
+  rewrite rev_app_distr. cbn [rev app]. rewrite lstrip_cons_nws by exact Hl.
+  change (y :: rev l') with ([y] ++ rev l'). rewrite rev_app_distr, rev_involutive. reflexivity.
+Qed.
+
+(* v.strip() == v for a string that neither starts nor ends with whitespace *)
+Lemma strip_ends l :
+  match l with [] => True | x :: _ => is_ws x = false /\ is_ws (last l 0) = false end -> strip l = l.
+Proof.
+  destruct l as [|x t]; intros H; [reflexivity|]. destruct H as [H1 H2].
+  unfold strip. rewrite lstrip_cons_nws by exact H1. apply rstrip_nws; [discriminate|exact H2].
+Qed.
+
+Lemma rstrip_app_ws l ws : forallb is_ws ws = true -> rstrip (l ++ ws) = rstrip l.
+Proof.
+  intros H. unfold rstrip. rewrite rev_app_distr. rewrite lstrip_app_ws; [reflexivity|].
+  rewrite forallb_forall in *. intros x Hx. apply H. now apply in_rev.
+Qed.
+
+(* (sz ++ pad).strip() == sz when sz has no whitespace at all and pad is only whitespace *)
+Lemma strip_app_ws l ws : (forall x, In x l -> is_ws x = false) -> forallb is_ws ws = true ->
+  strip (l ++ ws) = l.
+Proof.
+  intros Hl Hw. destruct l as [|x t].
+  - cbn [app]. unfold strip. replace (lstrip ws) with (lstrip (ws ++ [])) by now rewrite app_nil_r.
+    rewrite lstrip_app_ws by exact Hw. reflexivity.
+  - unfold strip. cbn [app]. rewrite lstrip_cons_nws by (apply Hl; now left).
+    change (x :: t ++ ws) with ((x :: t) ++ ws). rewrite rstrip_app_ws by exact Hw.
+    apply rstrip_nws; [discriminate|]. apply Hl.
+    destruct (exists_last (l := x :: t)) as (l' & y & E); [discriminate|]. rewrite E, last_last.
+    apply in_or_app. right. now left.
+Qed.
+
+Lemma strip_nonempty_of_nws x l : In x l -> is_ws x = false -> strip l <> [].
+Proof. intros Hi Hw E. pose proof (In_strip _ _ Hi Hw) as H. rewrite E in H. destruct H. Qed.
+
+(* ------------------------------------------------------------------ lines *)
+(* a line without LF is given back unchanged by split(CRLF, 1) whatever follows its CRLF *)
+Lemma split_once_crlf_no_lf l rest : ~ In LF l -> split_once CRLF (l ++ CRLF ++ rest) = Some (l, rest).
+Proof.
+  induction l as [|x t IH]; intros H.
+  - reflexivity.
+  - cbn [app]. rewrite split_once_skip.
+    + rewrite IH; [reflexivity|]. intros Hi. apply H. now right.
+    + unfold CRLF. cbn [is_prefix]. destruct (N.eqb_spec 13 x) as [E|E]; [|reflexivity].
+      cbn [andb]. destruct t as [|y t'].
+      * reflexivity.
+      * cbn [app]. destruct (N.eqb_spec 10 y) as [E2|E2]; [|reflexivity].
+        exfalso. apply H. right. left. unfold LF. now symmetry.
+Qed.
+
+Lemma contains_crlf_no_lf l : ~ In LF l -> contains CRLF l = false.
+Proof.
+  induction l as [|x t IH]; intros H; [reflexivity|].
+  cbn [contains]. unfold CRLF at 1. cbn [is_prefix].
+  assert (Ht : ~ In LF t) by (intros Hi; apply H; now right).
+  destruct (N.eqb_spec 13 x) as [E|E]; cbn [andb]; [|now apply IH].
+  destruct t as [|y t']; [reflexivity|].
+  destruct (N.eqb_spec 10 y) as [E2|E2]; cbn [andb]; [|now apply IH].
+  exfalso. apply H. right. left. unfold LF. now symmetry.
+Qed.
+
+(* ------------------------------------------------------------------ split(b' ', 2) *)
+Lemma splitn2_three c a b d : ~ In c a -> ~ In c b ->
+  splitn [c] 2 (a ++ c :: b ++ c :: d) = [a; b; d].
+Proof.
+  intros Ha Hb.
+  rewrite (splitn_S_some [c] 1 _ a (b ++ c :: d)) by (now apply split_once_byte_notin).
+  rewrite (splitn_S_some [c] 0 _ b d) by (now apply split_once_byte_notin).
+  reflexivity.
+Qed.
+
+Lemma splitn2_two c a b : ~ In c a -> ~ In c b -> splitn [c] 2 (a ++ c :: b) = [a; b].
+Proof.
+  intros Ha Hb.
+  rewrite (splitn_S_some [c] 1 _ a b) by (now apply split_once_byte_notin).
+  rewrite (splitn_S_none [c] 0 b) by (now apply split_once_byte_none).
+  reflexivity.
+Qed.
+
+(* ------------------------------------------------------------------ to_base: str(n), '{:x}'.format(n) *)
+(* value of a lower-case digit character *)
+Definition char_val (x : N) : N := if is_digit x then x - 48 else x - 87.
+Definition base_val (base : N) (l : bytes) (acc : N) : N := fold_left (fun a x => a * base + char_val x) l acc.
+Definition base_digit (base : N) (x : N) : Prop := exists d, d < base /\ x = digit_char d.
+
+Lemma char_val_digit_char d : d < 36 -> char_val (digit_char d) = d.
+Proof.
+  intros H. unfold char_val, digit_char, is_digit.
+  destruct (N.ltb_spec d 10) as [L|L].
+  - replace ((48 <=? 48 + d) && (48 + d <=? 57)) with true; [lia|].
+    symmetry. apply andb_true_iff. split; apply N.leb_le; lia.
+  - replace ((48 <=? 87 + d) && (87 + d <=? 57)) with false; [lia|].
+    symmetry. apply andb_false_iff. right. apply N.leb_gt. lia.
+Qed.
+
+Lemma base_val_app base a b acc : base_val base (a ++ b) acc = base_val base b (base_val base a acc).
+Proof. unfold base_val. apply fold_left_app. Qed.
+
+Lemma to_base_aux_S f base n acc :
+  to_base_aux (S f) base n acc =
+  if n <? base then digit_char n :: acc
+  else to_base_aux f base (n / base) (digit_char (n mod base) :: acc).
+Proof. reflexivity. Qed.
+
+Lemma to_base_aux_spec base : 2 <= base -> base <= 36 -> forall f n acc, n < 2 ^ N.of_nat (S f) ->
+  exists ds, to_base_aux (S f) base n acc = ds ++ acc /\ ds <> [] /\ Forall (base_digit base) ds /\
+             forall a, base_val base ds a = a * base ^ N.of_nat (length ds) + n.
+Proof.
+  intros Hb2 Hb36. induction f as [|f IH]; intros n acc Hn.
+  - change (2 ^ N.of_nat 1) with 2 in Hn.
+    rewrite to_base_aux_S. destruct (N.ltb_spec n base) as [L|L]; [|lia].
+    exists [digit_char n]. repeat split.
+    + discriminate.
+    + constructor; [exists n; split; [exact L|reflexivity]|constructor].
+    + intros a. unfold base_val. cbn [fold_left length]. rewrite char_val_digit_char by lia.
+      change (N.of_nat 1) with 1. rewrite N.pow_1_r. reflexivity.
+  - rewrite to_base_aux_S. destruct (N.ltb_spec n base) as [L|L].
+    + exists [digit_char n]. repeat split.
+      * discriminate.
+      * constructor; [exists n; split; [exact L|reflexivity]|constructor].
+      * intros a. unfold base_val. cbn [fold_left length]. rewrite char_val_digit_char by lia.
+        change (N.of_nat 1) with 1. rewrite N.pow_1_r. reflexivity.
+    + assert (Hq : n / base < 2 ^ N.of_nat (S f)).
+      { rewrite Nat2N.inj_succ, N.pow_succ_r' in Hn.
+        apply N.div_lt_upper_bound; [lia|].
+        apply N.lt_le_trans with (2 * 2 ^ N.of_nat (S f)); [exact Hn|].
+        apply N.mul_le_mono_r. exact Hb2. }
+      destruct (IH (n / base) (digit_char (n mod base) :: acc) Hq) as (ds & E & Hne & Hd & Hv).
+      exists (ds ++ [digit_char (n mod base)]). repeat split.
+      * rewrite E. now rewrite <- app_assoc.
+      * intros C. apply app_eq_nil in C. destruct C; discriminate.
+      * apply Forall_app. split; [exact Hd|]. constructor; [|constructor].
+        exists (n mod base). split; [apply N.mod_lt; lia|reflexivity].
+      * intros a. rewrite base_val_app, Hv. unfold base_val at 1. cbn [fold_left].
+        assert (Hm : n mod base < base) by (apply N.mod_lt; lia).
+        rewrite char_val_digit_char by lia.
+        rewrite app_length. cbn [length]. rewrite Nat.add_1_r, Nat2N.inj_succ, N.pow_succ_r'.
+        pose proof (N.div_mod n base ltac:(lia)) as Hdm. nia.
+Qed.
+
+Lemma to_base_spec base n : 2 <= base -> base <= 36 ->
+  exists ds, to_base base n = ds /\ ds <> [] /\ Forall (base_digit base) ds /\ base_val base ds 0 = n.
+Proof.
+  intros H2 H36. unfold to_base.
+  assert (Hn : n < 2 ^ N.of_nat (S (N.to_nat (N.log2 n)))).
+  { rewrite Nat2N.inj_succ, N2Nat.id. destruct n as [|p]; [reflexivity|].
+    apply N.log2_spec. reflexivity. }
+  destruct (to_base_aux_spec base H2 H36 _ n [] Hn) as (ds & E & Hne & Hd & Hv).
+  exists ds. rewrite app_nil_r in E. repeat split; try assumption.
+  rewrite Hv. lia.
+Qed.
+
+(* decimal: the digits of str(n) *)
+Lemma base_digit_10 x : base_digit 10 x -> is_digit x = true.
+Proof.
+  intros (d & Hd & ->). unfold digit_char. destruct (N.ltb_spec d 10); [|lia].
+  unfold is_digit. apply andb_true_iff. split; apply N.leb_le; lia.
+Qed.
+
+Lemma base_val_10_digits l : forallb is_digit l = true -> forall acc, base_val 10 l acc = digits_val_aux l acc.
+Proof.
+  induction l as [|x t IH]; intros H acc; [reflexivity|].
+  cbn [forallb] in H. apply andb_true_iff in H as [Hx Ht].
+  unfold base_val. cbn [fold_left digits_val_aux]. fold (base_val 10 t (acc * 10 + char_val x)).
+  rewrite IH by exact Ht. unfold char_val. now rewrite Hx.
+Qed.
+
+Lemma dec_of_N_spec n :
+  dec_of_N n <> [] /\ all_digits (dec_of_N n) = true /\ digits_val (dec_of_N n) = n.
+Proof.
+  destruct (to_base_spec 10 n ltac:(lia) ltac:(lia)) as (ds & E & Hne & Hd & Hv).
+  unfold dec_of_N. rewrite E.
+  assert (Ha : forallb is_digit ds = true).
+  { apply forallb_forall. intros x Hx. apply base_digit_10. rewrite Forall_forall in Hd. now apply Hd. }
+  repeat split; [exact Hne|exact Ha|]. unfold digits_val. now rewrite <- base_val_10_digits.
+Qed.
+
+(* int(str(n)) == n, below CPython's digit limit *)
+Lemma int10_dec_of_N n : (length (dec_of_N n) <= int_limit)%nat -> int10 (dec_of_N n) = Ok (Z.of_N n).
+Proof.
+  intros Hl. destruct (dec_of_N_spec n) as (Hne & Hd & Hv).
+  rewrite int10_digits by assumption. now rewrite Hv.
+Qed.
+
+(* ------------------------------------------------------------------ insertion-ordered dict *)
+Section DictFacts.
+  Context {V : Type}.
+  Implicit Types d : dict V.
+
+  Lemma dict_get_none_notin k d : dict_get k d = None <-> ~ In k (dict_keys d).
+  Proof.
+    induction d as [|[k' v'] t IH]; cbn [dict_get dict_keys map In fst]; [tauto|].
+    destruct (bytes_eqb k k') eqn:E.
+    - apply bytes_eqb_eq in E. subst. split; [discriminate|]. intros H. exfalso. apply H. now left.
+    - rewrite IH. unfold dict_keys. split.
+      + intros H [C|C]; [subst; rewrite bytes_eqb_refl in E; discriminate|contradiction].
+      + intros H C. apply H. now right.
+  Qed.
+
+  (* d[k] = v for a new key appends *)
+  Lemma dict_set_new k v d : ~ In k (dict_keys d) -> dict_set k v d = d ++ [(k, v)].
+  Proof.
+    induction d as [|[k' v'] t IH]; cbn [dict_set dict_keys map In fst app]; intros H; [reflexivity|].
+    destruct (bytes_eqb k k') eqn:E.
+    - apply bytes_eqb_eq in E. subst. exfalso. apply H. now left.
+    - rewrite IH; [reflexivity|]. intros C. apply H. now right.
+  Qed.
+
+  Lemma dict_keys_set_new k v d : ~ In k (dict_keys d) -> dict_keys (dict_set k v d) = dict_keys d ++ [k].
+  Proof. intros H. rewrite dict_set_new by exact H. unfold dict_keys. now rewrite map_app. Qed.
+
+  (* assignment to an existing key keeps the position *)
+  Lemma dict_keys_set_old k v d : In k (dict_keys d) -> dict_keys (dict_set k v d) = dict_keys d.
+  Proof.
+    induction d as [|[k' v'] t IH]; cbn [dict_set dict_keys map In fst]; intros H; [destruct H|].
+    destruct (bytes_eqb k k') eqn:E.
+    - apply bytes_eqb_eq in E. subst. reflexivity.
+    - cbn [map fst]. f_equal. apply IH. destruct H as [C|C]; [|exact C].
+      subst. rewrite bytes_eqb_refl in E. discriminate.
+  Qed.
+
+  Lemma dict_get_set_same k v d : dict_get k (dict_set k v d) = Some v.
+  Proof.
+    induction d as [|[k' v'] t IH]; cbn [dict_set dict_get].
+    - now rewrite bytes_eqb_refl.
+    - destruct (bytes_eqb k k') eqn:E; cbn [dict_get]; [now rewrite bytes_eqb_refl|now rewrite E].
+  Qed.
+
+  Lemma dict_get_set_other k k' v d : k <> k' -> dict_get k (dict_set k' v d) = dict_get k d.
+  Proof.
+    intros Hne. induction d as [|[k2 v2] t IH]; cbn [dict_set dict_get].
+    - destruct (bytes_eqb k k') eqn:E; [apply bytes_eqb_eq in E; contradiction|reflexivity].
+    - destruct (bytes_eqb k' k2) eqn:E; cbn [dict_get].
+      + apply bytes_eqb_eq in E. subst k2.
+        destruct (bytes_eqb k k') eqn:E2; [apply bytes_eqb_eq in E2; contradiction|reflexivity].
+      + now rewrite IH.
+  Qed.
+End DictFacts.
+
+(* a list is a Python dict when its keys are pairwise different *)
+Lemma NoDup_snoc {A} (l : list A) x : NoDup l -> ~ In x l -> NoDup (l ++ [x]).
+Proof.
+  induction l as [|y t IH]; intros Hn Hi; cbn [app].
+  - constructor; [intros []|constructor].
+  - inversion Hn; subst. constructor.
+    + intros C. apply in_app_or in C as [C|[C|[]]]; [contradiction|]. subst. apply Hi. now left.
+    + apply IH; [assumption|]. intros C. apply Hi. now right.
+Qed.
+
+Section DictWf.
+  Context {V : Type}.
+  Implicit Types d : dict V.
+  Definition dict_wf d : Prop := NoDup (dict_keys d).
+
+  Lemma dict_wf_nil : dict_wf ([] : dict V).
+  Proof. constructor. Qed.
+
+  Lemma dict_keys_del_subset k k' d : In k (dict_keys (dict_del k' d)) -> In k (dict_keys d).
+  Proof.
+    induction d as [|[k2 v2] t IH]; cbn [dict_del dict_keys map fst In]; [tauto|].
+    destruct (bytes_eqb k' k2); cbn [dict_keys map fst In]; [now right|].
+    intros [H|H]; [now left|right; now apply IH].
+  Qed.
+
+  Lemma dict_wf_set k v d : dict_wf d -> dict_wf (dict_set k v d).
+  Proof.
+    unfold dict_wf. intros H. destruct (in_dec (list_eq_dec N.eq_dec) k (dict_keys d)) as [Hi|Hn].
+    - now rewrite dict_keys_set_old.
+    - rewrite dict_keys_set_new by exact Hn. now apply NoDup_snoc.
+  Qed.
+
+  Lemma dict_wf_del k d : dict_wf d -> dict_wf (dict_del k d).
+  Proof.
+    unfold dict_wf. induction d as [|[k2 v2] t IH]; cbn [dict_del dict_keys map fst]; intros H; [constructor|].
+    inversion H; subst. destruct (bytes_eqb k k2); [assumption|].
+    cbn [dict_keys map fst]. constructor; [|now apply IH].
+    intros C. apply dict_keys_del_subset in C. contradiction.
+  Qed.
+
+  Lemma dict_get_del_same k d : dict_wf d -> dict_get k (dict_del k d) = None.
+  Proof.
+    unfold dict_wf. induction d as [|[k2 v2] t IH]; cbn [dict_del dict_keys map fst]; intros H; [reflexivity|].
+    inversion H; subst. destruct (bytes_eqb k k2) eqn:E.
+    - apply bytes_eqb_eq in E. subst. now apply dict_get_none_notin.
+    - cbn [dict_get]. rewrite E. now apply IH.
+  Qed.
+
+  Lemma dict_get_del_other k k' d : k <> k' -> dict_get k (dict_del k' d) = dict_get k d.
+  Proof.
+    intros Hne. induction d as [|[k2 v2] t IH]; cbn [dict_del dict_get]; [reflexivity|].
+    destruct (bytes_eqb k' k2) eqn:E.
+    - apply bytes_eqb_eq in E. subst k2.
+      destruct (bytes_eqb k k') eqn:E2; [apply bytes_eqb_eq in E2; contradiction|reflexivity].
+    - cbn [dict_get]. now rewrite IH.
+  Qed.
+End DictWf.
